@@ -71,3 +71,39 @@ func GoodC17R1_direct(w io.Writer) error {
 	b.WriteString("x")
 	return b.Flush()
 }
+
+// C17-R4: a writer that lives inside one function
+
+func BadC17R4_silentReturn(w io.Writer, silent bool) error {
+	b := bufio.NewWriter(w)
+	b.WriteString("x")
+	if silent {
+		return nil
+	}
+	return b.Flush()
+}
+
+func BadC17R4_writeAfterFlush(w io.Writer) error {
+	b := bufio.NewWriter(w)
+	if err := b.Flush(); err != nil {
+		return err
+	}
+	b.WriteString("x")
+	return nil
+}
+
+func GoodC17R4_flushLast(w io.Writer, silent bool) error {
+	b := bufio.NewWriter(w)
+	if !silent {
+		b.WriteString("x")
+	}
+	return b.Flush()
+}
+
+func GoodC17R4_errorPath(w io.Writer, work func(io.Writer) error) error {
+	b := bufio.NewWriter(w)
+	if err := work(b); err != nil {
+		return err
+	}
+	return b.Flush()
+}
